@@ -4,6 +4,7 @@ immediates / shift kinds each element size lets through - everything else ends i
 `emitSimdMoviMvni` itself takes > 4 min and overflows the kernel's recursion limit whatever the proof style, so it is not stated.)
 -/
 import AsmjitVerif.Props.C02Refuse
+import AsmjitVerif.Spec.A64Decode
 namespace AsmjitVerif.C02
 open AsmjitVerif.A64 AsmjitVerif.A64Asm AsmjitVerif.Gen.A64Tables
 set_option maxRecDepth 100000
@@ -104,5 +105,32 @@ theorem simdLdSt_offset_fits_neither_refused (d : SimdLdStRow) (o0 : Reg) (mo : 
     | some du =>
       rw [hd] at h
       exact simdLdurStur_refuses_out_of_range du o0 m h9 ws h
+
+/-! ### the 64-bit byte-mask packer (`encode_imm64_byte_mask_to_imm8`, model `byteMaskToImm8`) against the spec's
+AdvSIMDExpandImm(op = 1, cmode = 1110) - all 256 masks -/
+
+/-- every imm8 expands to a byte mask that the assembler recognises and packs back to the same imm8 (so each byte of the mask goes
+to its own bit of abc:defgh) -/
+theorem movi_bytemask_roundtrip :
+    (List.range 256).all (fun i =>
+      match AsmjitVerif.A64Spec.moviExpand 1 14 i with
+      | some v => isByteMask v && byteMaskToImm8 v == i && decide (v < 2 ^ 64)
+      | none => false) = true := by decide +kernel
+
+/-- conversely the byte masks are exactly these 256 values: a 64-bit value passes `is_byte_mask_imm` iff it is the expansion of
+its own packed imm8 -/
+theorem movi_bytemask_expand_of_pack (imm : BitVec 64) (h : AsmjitVerif.A64Imm.isByteMaskImm imm = true) :
+    AsmjitVerif.A64Imm.byteMaskExpand ((AsmjitVerif.A64Imm.encodeByteMaskToImm8 imm).truncate 8) = imm := by
+  unfold AsmjitVerif.A64Imm.isByteMaskImm at h
+  unfold AsmjitVerif.A64Imm.byteMaskExpand AsmjitVerif.A64Imm.encodeByteMaskToImm8
+  simp only [List.range, List.range.loop, List.foldl]
+  bv_decide
+
+/-- the fmov immediate packer (`is_fp64_imm8` / `encode_fp64_to_imm8`, model `isFp64Imm8` / `encodeFp64Imm8`) against VFPExpandImm:
+all 256 encodable doubles are accepted and pack back to their imm8 -/
+theorem fmov_imm8_roundtrip :
+    (List.range 256).all (fun i =>
+      let bits := (AsmjitVerif.A64Imm.vfpExpandImm 64 (BitVec.ofNat 8 i)).toNat
+      isFp64Imm8 bits && encodeFp64Imm8 bits == i) = true := by decide +kernel
 
 end AsmjitVerif.C02
